@@ -179,6 +179,9 @@ func (br *blockReader) getType() byte {
 func newBlockReader(block []byte, headerOff uint32, tableBlockSize uint32, hashSize int) (*blockReader, error) {
 
 	fullBlockSize := tableBlockSize
+	if uint64(len(block)) < uint64(headerOff)+4 {
+		return nil, fmtError
+	}
 	typ := block[headerOff]
 	if !isBlockType(typ) {
 		return nil, fmt.Errorf("reftable: unknown block type %c", typ)
@@ -224,10 +227,16 @@ func newBlockReader(block []byte, headerOff uint32, tableBlockSize uint32, hashS
 		// the caller must also handle zlib (de)compression.
 		fullBlockSize = sz
 	}
+	if int(sz) > len(block) || sz < headerOff+4+2 {
+		return nil, fmtError
+	}
 	block = block[:sz]
 
 	restartCount := binary.BigEndian.Uint16(block[len(block)-2:])
 	restartStart := len(block) - 2 - 3*int(restartCount)
+	if restartStart < int(headerOff)+4 {
+		return nil, fmtError
+	}
 	restartBytes := block[restartStart:]
 	block = block[:restartStart]
 
